@@ -1,5 +1,7 @@
 """C03 — cancelable mode holds a trace until its root finishes, then delivers it whole."""
 import seqcheck
+import seqrun
+from props import c09
 
 
 def knobs(r, i):
@@ -7,6 +9,20 @@ def knobs(r, i):
 
 
 def run(v, tier, seed, replay):
-    seqcheck.run(v, tier, seed, replay, "C03", ["C03"], tree_oracles=["no_panic", "exactly_once", "tree"], knobs=knobs,
+    cases, impl, model = seqcheck.run(v, tier, seed, replay, "C03", ["C03"], tree_oracles=["no_panic", "exactly_once", "tree"], knobs=knobs,
                  n_quick=(600, 100), n_thorough=(60000, 5000),
                  assumptions=["cross-thread completeness relies on the drain being a consistent cut; the harness serialises operations and whole cycles, finer interleavings are open finding D4 (see C03_whole)"])
+    if not replay and not v.violations:
+        scen = {"big-trace-%d" % 1: c09.sc_big_trace(1), "recovery-%d" % 1: c09.sc_recovery(1)}
+        tags = list(scen)
+        s_impl = seqrun.run_impl([scen[t] for t in tags], jobs=2)
+        s_model = seqrun.run_model([scen[t] for t in tags])
+        for tag, bad in c09.check_scenarios({t: (scen[t], s_impl[i]) for i, t in enumerate(tags)})[:2]:
+            v.violation(bad, {"program": scen[tag][:60] + ["…"] + scen[tag][-8:], "scenario": tag, "stream": "wild", "implementation_transcript_tail": [seqrun.strip_times(x)[:300] for x in s_impl[tags.index(tag)][-6:]]})
+        if not v.violations and s_model:
+            for i, t in enumerate(tags):
+                k = seqrun.first_mismatch(s_impl[i], s_model[i])
+                if k is not None:
+                    v.violation("scenario %s: model/implementation correspondence broken at %r" % (t, scen[t][k] if k < len(scen[t]) else "<end>"), {"scenario": t, "line": k}, found_input=False, tag="corr-scen")
+                    break
+        v.coverage["scenarios"] = tags
